@@ -131,6 +131,66 @@ fn c05_single_component_perturbations() {
     }
 }
 
+/// C05: the non-placement components together: all 16 sets of castling rights x 9 en-passant values x 2 sides to move of one
+/// placement are 288 different positions and must get 288 different keys (covers components that cancel only in combination)
+#[test]
+fn c05_state_combinations_distinct() {
+    let avail = |b: bool| if b { CastlingStatus::Available } else { CastlingStatus::Unavailable };
+    for fen in FENS.iter() {
+        let b = Board::from_fen(fen);
+        let mut seen: std::collections::HashMap<ZKey, (u8, Option<u8>, bool)> = std::collections::HashMap::new();
+        for rights in 0..16u8 { for ep in std::iter::once(None).chain((0..8u8).map(Some)) { for flip in [false, true] {
+            let mut t = b.clone();
+            if flip { t.current_turn = t.current_turn.opposite(); }
+            t.en_passant_file = ep;
+            let last = t.history.last_mut().unwrap();
+            last.castling_rights.white_kingside = avail(rights & 1 != 0);
+            last.castling_rights.white_queenside = avail(rights & 2 != 0);
+            last.castling_rights.black_kingside = avail(rights & 4 != 0);
+            last.castling_rights.black_queenside = avail(rights & 8 != 0);
+            let k = ZKey::from(&t);
+            if let Some(other) = seen.insert(k, (rights, ep, flip)) {
+                panic!("C05: same key for (rights KQkq bits, ep file, other side to move) = {:?} and {:?} on the placement of {fen}", other, (rights, ep, flip));
+            }
+        } } }
+    }
+}
+
+/// C05: along seeded playouts, positions that differ (placement, side to move, rights, en-passant file) never share a key
+/// (a chance collision among ~10^5 64-bit keys has probability ~3e-10; the run is deterministic for a given seed)
+#[test]
+fn c05_explored_positions_distinct() {
+    let ident = |b: &Board| -> String {
+        let mut s = String::new();
+        for i in 0..64u8 { match b.get_piece(Square::from(i)) { Some(p) => s.push_str(&format!("{p}")), None => s.push('.') } }
+        let r = b.history.last().unwrap().castling_rights;
+        format!("{s} {:?} {:?}{:?}{:?}{:?} {:?}", b.current_turn, r.white_kingside, r.white_queenside, r.black_kingside, r.black_queenside, b.en_passant_file)
+    };
+    let mut rng = Rng(seed());
+    let mut seen: std::collections::HashMap<ZKey, String> = std::collections::HashMap::new();
+    for fen in FENS.iter() {
+        for _game in 0..games(6) {
+            let mut b = Board::from_fen(fen);
+            for _ply in 0..120 {
+                let moves = b.get_legal_moves();
+                if moves.is_empty() { break; }
+                for m in &moves {
+                    b.make_move(*m);
+                    let (k, id) = (ZKey::from(&b), ident(&b));
+                    match seen.get(&k) {
+                        Some(other) => assert!(*other == id, "C05: two different positions share the key {k:?}:\n  {other}\n  {id}"),
+                        None => { seen.insert(k, id); }
+                    }
+                    b.unmake_move();
+                }
+                let m = moves[rng.below(moves.len())];
+                b.make_move(m);
+                if b.get_halfmove_clock() >= 100 { break; }
+            }
+        }
+    }
+}
+
 // =====================================================================================
 // C01 / C03: an independent reference implementation of the rules (mailbox board, written from the FIDE rules, sharing
 // no code with the engine) and a differential walk: legal move sets, check status and every bookkeeping component are
